@@ -223,6 +223,15 @@ def _simple_consts(cfg):
             'Dev': set(cfg.get('dev', []))}
 
 
+def _simple_liveness(cfg):
+    # "a receive() with a finite timeout terminates": only where every call
+    # of the application is one (otherwise the formula is a tautology)
+    if cfg['app'] and all(op[0] == 'receive' and len(op) > 1 and op[1]
+                          for op in cfg['app']):
+        return ['C19_FiniteReceiveTerminates']
+    return []
+
+
 class _ThreadsAlpha:
     @staticmethod
     def sched(cfg):
@@ -278,12 +287,14 @@ FAMILIES = {
                              for k, v in asimple.CONFIGS.items()},
                     alpha=_SimpleAlpha, consts=_simple_consts,
                     adapter=lambda c: asimple.AsyncSimpleAdapter(c),
+                    liveness=_simple_liveness,
                     no_alphabet=True, variants=('asyncio',), base_inv=[]),
     'simple': dict(spec='SimpleClient', graph='SimpleClientGraph',
                    configs={k: dict(v, alpha='sched', dev=['D9'])
                             for k, v in simple.CONFIGS.items()},
                    alpha=_SimpleAlpha, consts=_simple_consts,
                    adapter=lambda c: simple.SimpleAdapter(c),
+                   liveness=_simple_liveness,
                    no_alphabet=True, variants=('threaded',),
                    base_inv=[]),
     'server': dict(spec='SioServer', graph='SioServerGraph',
@@ -352,6 +363,16 @@ def _tlc_g1(fam, wd, cfg, alphabet, invariants, workers, view=False,
     cfgt = ('VIEW CoreView\n' if view else '') + \
         'INIT Init\nNEXT %s\n' % fam.get('next', 'Next') + \
         cfgc + ''.join('INVARIANT %s\n' % i for i in invariants)
+    return tlc.run_tlc(os.path.join(wd, tag), tag, cfgt, modules={tag: mod},
+                       workers=workers)
+
+
+def _tlc_live(fam, wd, cfg, alphabet, props, workers, tag='MCL'):
+    """Liveness under the module's fairness condition (SPECIFICATION Spec,
+    no constraint, no view)."""
+    mod, cfgc = mc_module(fam, tag, fam['spec'], cfg, alphabet)
+    cfgt = 'SPECIFICATION Spec\n' + cfgc + \
+        ''.join('PROPERTY %s\n' % p for p in props)
     return tlc.run_tlc(os.path.join(wd, tag), tag, cfgt, modules={tag: mod},
                        workers=workers)
 
@@ -551,6 +572,22 @@ def check_config(v, name, invariants, dev, variants=None):
                         {'config': name, 'tlc_trace': r1.out[-6000:]})
         v.cov['states'] += r1.distinct
         v.cov['transitions'] += r1.generated
+        live = fam['liveness'](cfg) if fam.get('liveness') else []
+        if live:
+            rl = _tlc_live(fam, wd, cfg, alphabet, live, 4)
+            v.log('  [%s] liveness %s under weak fairness: %s' % (
+                name, live,
+                'ok' if rl.ok else rl.violation or (rl.error or '')[-300:]))
+            if rl.error:
+                v.error('TLC liveness run failed on %s: %s' % (name,
+                                                               rl.error))
+                return False
+            if not rl.ok:
+                clean = False
+                v.violation('G1: the specification of the code (config %s) '
+                            'violates the liveness property %s' % (
+                                name, live),
+                            {'config': name, 'tlc_trace': rl.out[-6000:]})
         for var, (g, gf, f2) in graphs.items():
             r2 = f2.result()
             if r2.error and ('Attempted to' in r2.error or
